@@ -313,7 +313,7 @@ def cases(tier, seed):
                         "cfg": cfg, "D": 2, "block": None, "lite": False})
     # per-channel noise given as a dict on the model (dedicated cases)
     for kind in ("alpha-prior", "exact"):
-        for noise in ("dict", "dict-prior"):
+        for noise in ("dict", "dict-prior", "list-ch", "tuple-data-ch"):
             cfg = {"kind": kind, "noise": noise, "optics": "model",
                    "priors": "UUUU", "data": "noisy"}
             out.append({"id": "dictnoise:%s:%s" % (kind, noise),
@@ -331,6 +331,10 @@ def cases(tier, seed):
             out.append({"id": "extra:%s:D=%d" % (cfg_id(cfg), D),
                         "kind": "cfg", "cfg": cfg, "D": D, "block": None,
                         "lite": False})
+    # things a model must not share or demand (dedicated cases)
+    for nm in ("constraints-not-shared", "support-before-substitution",
+               "zero-d-optics"):
+        out.append({"id": "misc:" + nm, "kind": "misc", "what": nm})
     # pixels=k path under every scripted selection
     shapes = [(2, 2)] if tier == "quick" else [(2, 2), (2, 3)]
     for shape in shapes:
@@ -470,6 +474,8 @@ def build(cfg, shape=(4, 4), subset_pixels=7):
     c.cfg = cfg
     kind, noise, optics = cfg["kind"], cfg["noise"], cfg["optics"]
     c.nch = 2 if (noise.endswith("ch") or noise.startswith("dict")) else 1
+    # ("list-ch" / "tuple-data-ch": one noise level per channel as a bare
+    # sequence in the order of the data's channels)
     c.sites = cfg_sites(cfg)
     c.priors = {s: _mk_prior(s, k) for s, k in c.sites}
     c.kinds = dict(c.sites)
@@ -540,6 +546,10 @@ def build(cfg, shape=(4, 4), subset_pixels=7):
         mnoise = chx(SD_MODEL_CH)
     if noise in ("data-ch", "both-ch"):
         dnoise = dict(SD_DATA_CH)          # update_metadata converts the dict
+    if noise == "list-ch":
+        mnoise = [SD_MODEL_CH[k] for k in CH]
+    if noise == "tuple-data-ch":
+        dnoise = tuple(SD_DATA_CH[k] for k in CH)
     if noise == "dict":
         mnoise = dict(SD_MODEL_CH)
     if noise == "dict-prior":
@@ -713,11 +723,11 @@ def noise_expected(c, vals):
         return ("sd", SD_DATA)
     if m == "model-prior":
         return ("sd", vals["noise_sd"])
-    if m in ("model-ch", "both-ch", "dict"):
+    if m in ("model-ch", "both-ch", "dict", "list-ch"):
         return ("sd", [SD_MODEL_CH[k] for k in CH])
     if m == "dict-prior":
         return ("sd", [SD_MODEL_CH["red"], vals["noise_sd"]])
-    if m == "data-ch":
+    if m in ("data-ch", "tuple-data-ch"):
         return ("sd", [SD_DATA_CH[k] for k in CH])
     # none
     if all(k == "U" for _, k in c.sites):
@@ -1160,8 +1170,105 @@ def _run_pixels(case, ck):
     return digest(*acc)
 
 
+def _run_misc(case, ck):
+    import warnings
+    from holopy.inference import AlphaModel
+    from holopy.inference.model import LimitOverlaps
+    from holopy.core.prior import Uniform
+    from holopy.scattering import Sphere, Spheres, Mie, calc_holo
+    from holopy.core.metadata import update_metadata
+    what = case["what"]
+    from holopy.core.metadata import detector_grid
+    det = update_metadata(detector_grid((4, 4), 0.1), medium_index=NMED,
+                          illum_wavelen=WL,
+                          illum_polarization=POL, noise_sd=0.05)
+
+    def two(x2):
+        return Spheres([Sphere(n=1.59, r=0.5, center=(0.0, 0.1, 5.0)),
+                        Sphere(n=1.45, r=0.25, center=(x2, 0.1, 5.0))],
+                       warn=False)
+    if what == "constraints-not-shared":
+        # overlapping configuration: forbidden only under the constraint
+        vals = [0.6]
+        m1 = AlphaModel(two(Uniform(0.0, 3.0)), alpha=0.7, theory=Mie())
+        before = m1.lnprior(vals)
+        m2 = AlphaModel(two(Uniform(0.0, 3.0)), alpha=0.7, theory=Mie())
+        m2.constraints.append(LimitOverlaps(0.0))
+        after = m1.lnprior(vals)
+        m3 = AlphaModel(two(Uniform(0.0, 3.0)), alpha=0.7, theory=Mie())
+        ck.trans += 4
+        ck.true("constraints-not-shared", before == after and
+                math.isfinite(before), "a constraint appended to ANOTHER "
+                "model changed this model's log-prior from %r to %r" %
+                (before, after))
+        ck.true("constraints-not-shared", m3.lnprior(vals) == before and
+                len(m3.constraints) == 0, "a model created afterwards "
+                "starts with %d constraint(s), log-prior %r" %
+                (len(m3.constraints), m3.lnprior(vals)))
+        lst = []
+        m4 = AlphaModel(two(Uniform(0.0, 3.0)), alpha=0.7, theory=Mie(),
+                        constraints=lst)
+        lst.append(LimitOverlaps(0.0))
+        ck.true("constraints-not-shared", m4.lnprior(vals) == before,
+                "appending to the caller's list after construction changed "
+                "the model's log-prior to %r" % m4.lnprior(vals))
+        return digest(repr(before))
+    if what == "support-before-substitution":
+        # the radius is written as 1 / p: a value of p outside its support
+        # (0.0) cannot even be substituted
+        acc = []
+        for zero in (0.0, np.float64(0.0), 0):
+            p = Uniform(1.0, 3.0)
+            m = AlphaModel(Sphere(n=1.59, r=1 / p, center=(0.17, 0.11, 5.0)),
+                           alpha=0.7, theory=Mie())
+            data = calc_holo(det, Sphere(n=1.59, r=0.5,
+                                         center=(0.17, 0.11, 5.0)))
+            for fn in ("lnprior", "lnposterior"):
+                try:
+                    with warnings.catch_warnings():
+                        warnings.simplefilter("ignore")
+                        v = (m.lnprior([zero]) if fn == "lnprior" else
+                             m.lnposterior([zero], data))
+                    ck.trans += 1
+                    ck.true("lnprior-neginf:outside-support",
+                            v == NEG_INF, "%s at p = %r (outside "
+                            "Uniform(1, 3), radius 1 / p) is %r" %
+                            (fn, zero, v))
+                    acc.append(repr(v))
+                except Exception as e:
+                    ck.true("lnprior-neginf:outside-support", False, "%s at "
+                            "p = %r (outside Uniform(1, 3), radius 1 / p) "
+                            "raised %s: %s" % (fn, zero, type(e).__name__,
+                                                e))
+        return digest(acc)
+    # zero-d-optics: numbers that arrive wrapped in 0-d arrays
+    sph = Sphere(n=1.59, r=Uniform(0.3, 0.8), center=(0.17, 0.11, 5.0))
+    data = calc_holo(det, Sphere(n=1.59, r=0.5, center=(0.17, 0.11, 5.0)))
+    ref = AlphaModel(sph, alpha=0.7, medium_index=NMED, illum_wavelen=WL,
+                     theory=Mie()).lnposterior([0.45], data)
+    acc = [repr(ref)]
+    for kw in ({"medium_index": np.array(NMED)},
+               {"illum_wavelen": np.array(WL)}, {"alpha": np.array(0.7)},
+               {"noise_sd": np.array(0.05)}):
+        args = dict(alpha=0.7, medium_index=NMED, illum_wavelen=WL)
+        args.update(kw)
+        try:
+            v = AlphaModel(sph, theory=Mie(), **args).lnposterior([0.45],
+                                                                  data)
+            ck.trans += 1
+            ck.true("zero-d-optics", abs(v - ref) <= 1e-9 * abs(ref),
+                    "model with %s as a 0-d array: lnposterior %r, with the "
+                    "plain number %r" % (list(kw)[0], v, ref))
+        except Exception as e:
+            ck.true("zero-d-optics", False, "model with %s as a 0-d array "
+                    "raised %s: %s" % (list(kw)[0], type(e).__name__, e))
+    return digest(acc)
+
+
 def run_case(case):
     ck = Checker()
+    if case["kind"] == "misc":
+        return ck.result(fp=_run_misc(case, ck))
     if case["kind"] == "cfg":
         fp = _run_cfg(case, ck)
     else:
